@@ -214,8 +214,69 @@ def check_lock_graph(ctx, facts, prefix, file_suffix, rule='lock-graph'):
     return bad, n
 
 
+def publication_widening(ctx, facts, upd=UPD, scope=('datafusion_physical_plan',), rule='publication-widening-agreement', expr_ty='dyn datafusion_physical_expr_common::physical_expr::PhysicalExpr'):
+    """Sibling publication sites agree (contradiction rule): the publishers of a dynamic filter are the functions that call `update`.  If, in one
+    impl, some publication passes its argument through a method of the same impl that reads `self` (the NULL-preserving widening of the join
+    accumulator: it consults null_aware / null_equality), then every publication of that impl does so on every path - a filter shape published
+    without the widening drops probe rows the join still needs."""
+    import re as _re
+    import C16 as _C16
+    from traces import run_traces as _rt
+    EXPR = expr_ty
+
+    def is_transformer(fn):
+        # a method of the publisher that takes a filter expression and answers a filter expression (expr -> expr)
+        sg = facts.sig(fn)
+        return bool(sg) and EXPR in sg[0] and any(EXPR in t for t in sg[2:])
+    pubs = {}
+    for c in facts.callers_of(upd):
+        r = facts.fn(c)
+        if r is None or r['crate'] not in scope or '::test' in c:
+            continue
+        owner = c.split('::{closure')[0].rsplit('::', 1)[0]
+        pubs.setdefault(owner, set()).add(c.split('::{closure')[0])
+    n = 0
+    for owner, fns in sorted(pubs.items()):
+        sites = []      # (fn, line, set of owner-method names applied to the argument)
+        for d in sorted(fns):
+            for body in [d] + sorted(k for k in facts.fn_index if k.startswith(d + '::{closure')):
+                rec = facts.fn(body)
+                if rec is None:
+                    continue
+                args = [MR(-1, 0, (), sym('st')), MR(-1, 1, (), sym('cx'))] if rec.get('coroutine') else _C16.args_for(rec)
+                try:
+                    outs = _rt(facts, rec, args, inline_depth=0, time_budget=30, budget=800000, loop_visits=1, try_tags=True)
+                except Undecidable:
+                    continue
+                for o in outs:
+                    for e in o.events:
+                        if e[0] == 'callargs' and e[1] == upd and len(e[2]) > 1:
+                            t = tag_of(e[2][1]) or ''
+                            ws = set(m for m in _re.findall(r'call:([A-Za-z_0-9]+)@\d+\(self[,)]', t) if is_transformer(owner + '::' + m))
+                            sites.append((d, e[3], frozenset(ws)))
+        if not sites:
+            continue
+        wideners = set.union(*[set(w) for _, _, w in sites])
+        if not wideners:
+            ctx.skip(rule, owner, 'no publication of this type routes its argument through a method of the type')
+            continue
+        n += 1
+        missing = [(d, l) for d, l, w in sites if not (w & wideners)]
+        inst = owner.rsplit('::', 1)[-1]
+        if missing:
+            d, l = missing[0]
+            ctx.fail(rule, inst, ctx.loc(facts.fn(d), l), 'a path of %s publishes a filter that did not go through %s, which every other publication of this type applies: that filter '
+                     'shape can discard probe rows (e.g. NULL keys of a null-equal / null-aware join) that contribute to the result' % (d.rsplit('::', 1)[-1], '/'.join(sorted(wideners))),
+                     key='%s|%s' % (rule, inst))
+        else:
+            ctx.ok(rule, inst, sample={'publisher': inst, 'publication_paths': len(sites), 'widening': sorted(wideners)})
+    return n
+
+
 def run(ctx):
     f = ctx.facts
+    npw = publication_widening(ctx, f)
+    ctx.floor('publication-widening-agreement', 'publisher types that widen what they publish', npw, 1)
     check_current(ctx, f, CUR, DF)
     check_cache_edge(ctx, f, CUR, DF)
     check_update(ctx, f, UPD, DF)
@@ -253,3 +314,7 @@ def run(ctx):
     ctx.selftest('atomic-read accepts current() split into helpers that keep one snapshot under one guard', len(probe.viol) == n0)
     b2 = check_update(probe, st, SD + 'Dyn::bad_update', SD, rule='st2')
     ctx.selftest('atomic-write detects generation bumped under a second guard', b2 > 0)
+    n0 = len(probe.viol)
+    publication_widening(probe, st, upd=SD + 'Filt::update', scope=('dfscan_selftest',), rule='st-pub', expr_ty='dyn dfscan_selftest::dynf::Px')
+    ctx.selftest('publication-widening agreement reports a publisher that widens only one of its filter shapes (BadPub), silent on GoodPub',
+                 sorted(v['key'] for v in probe.viol[n0:]) == ['st-pub|BadPub'])
